@@ -368,6 +368,18 @@ impl<'a> Ctx<'a> {
                         ok &= range_ok(lens, &ri.location.range);
                     }
                 }
+                // the range starts where the span starts (independent reference: count LF, count scalars since the last LF)
+                if defect.is_none() {
+                    let before = &src[..e.span.start];
+                    let line = before.matches('\n').count() as u32;
+                    let col = before[before.rfind('\n').map(|i| i + 1).unwrap_or(0)..].chars().count() as u32;
+                    if (d.range.start.line, d.range.start.character) != (line, col) {
+                        self.fail(
+                            format!("lsp-range-start:{stage}"),
+                            format!("editor range {:?} does not start at the position ({line},{col}) of span start {} ({:?})", d.range, e.span.start, e.message),
+                        );
+                    }
+                }
                 // an out-of-document range that merely follows from a malformed span is reported once, as the span
                 if !ok && defect.is_none() {
                     self.fail(
